@@ -60,13 +60,14 @@ SCHEMAS = {
         {'attrs': [PK, A_ref(0, 7), A_set(5, 3), A_ref(5, 2)], 'ckeys': []},
     ]},
     # S3: the many-to-many side that _calc_modified_m2m skips (second in name order) also owns a refusing one-to-many, after the
-    #     many-to-many in attribute order; a second, cascading one-to-many with grandchildren
+    #     many-to-many in attribute order; a second, cascading one-to-many with grandchildren; a one-to-one whose column side cascades
     'S3': {'entities': [
-        {'attrs': [PK, A_set(1, 1), A_int(unique=True)], 'ckeys': []},
+        {'attrs': [PK, A_set(1, 1), A_int(unique=True), A_ref(5, 1, cascade=True)], 'ckeys': []},
         {'attrs': [PK, A_set(0, 1), A_set(3, 1), A_set(2, 1, cascade=False), A_int()], 'ckeys': []},
         {'attrs': [PK, A_ref(1, 3, required=True)], 'ckeys': []},
-        {'attrs': [PK, A_ref(1, 2, required=True), A_set(4, 1)], 'ckeys': []},
+        {'attrs': [PK, A_ref(1, 2, required=True), A_set(4, 1), A_int(unique=True)], 'ckeys': []},
         {'attrs': [PK, A_ref(3, 2, required=True)], 'ckeys': []},
+        {'attrs': [PK, A_ref(0, 3)], 'ckeys': []},           # one-to-one, both optional: E0 holds the column and cascades
     ]},
 }
 
@@ -299,8 +300,8 @@ class World(object):
                     sd = (obj._vals_ or {}).get(at)
                     if sd is None: colls[j] = {'items': [], 'added': [], 'removed': []}
                     else:
-                        colls[j] = {'items': sorted(self.hid(x) for x in sd), 'added': sorted(self.hid(x) for x in (sd.added or ())),
-                                    'removed': sorted(self.hid(x) for x in (sd.removed or ()))}
+                        colls[j] = {'items': hsorted(self.hid(x) for x in sd), 'added': hsorted(self.hid(x) for x in (sd.added or ())),
+                                    'removed': hsorted(self.hid(x) for x in (sd.removed or ()))}
                 else:
                     v = (obj._vals_ or {}).get(at, NOT_LOADED)
                     vals[j] = 'NL' if v is NOT_LOADED else self.cval(v)
@@ -321,7 +322,7 @@ class World(object):
         mod = []
         for at, s in cache.modified_collections.items():
             i = self.ents.index(at.entity); j = self.attrs[i].index(at)
-            hs = sorted(self.hid(o) for o in s)
+            hs = hsorted(self.hid(o) for o in s)
             if hs: mod.append([i, j, hs])
         return {'objs': objs, 'idx': idx, 'queue': queue, 'mod': sorted(mod)}
 
@@ -337,8 +338,9 @@ class World(object):
             con.close()
 
 
-def strip_trailing(queue):
-    return queue
+def hsorted(hs):
+    """handles sorted, the zombie marker 'Z' last"""
+    return sorted(hs, key=lambda h: (isinstance(h, str), h))
 
 
 def snap_diff(a, b):
